@@ -69,7 +69,7 @@ def template_def(rng, prof):
         tasks = [T("a", [tr(["s"], w)]), T("b", [tr(["s"], rng.choice([None, fn("completed")]))]),
                  T("s", [tr(["x", "y"])]), T("x", [tr(["j"], fn("succeeded"))]),
                  T("y", [tr(["j"], rng.choice([fn("succeeded"), fn("completed")]))]),
-                 T("j", [tr(["z"])], join=rng.choice(["all", 2])), T("z")]
+                 T("j", [tr(["z"])], join=rng.choice(["all", 2, "all", 2, 3])), T("z")]
         feat = "tpl_split_join"
     elif k == 1:  # clean-up beside a fail command, with a concurrent branch
         tasks = [T("t", [tr(["cleanup", "fail"], fn("failed"), [["err", lit("boom")]]), tr(["after"], fn("succeeded"))]),
@@ -190,7 +190,7 @@ def gen_def(rng, prof):
         d["vars"].append(["y", lit(yv)])
     if rng.random() < 0.3:
         d["vars"].append(["z", op("add", ctx("x"), lit(1))])
-    d["vars"].append(["xs", lit([rng.randint(0, 9) for _ in range(rng.randint(0, 4))])])
+    d["vars"].append(["xs", lit([rng.randint(0, 9) for _ in range(rng.choice([0, 1, 2, 3, 4, 4, 5, 6]))])])
     d["vars"].append(["n", lit(0)])
     d["vars"].append(["d", lit({"a": rng.randint(0, 2), "b": "s"})])
     if rng.random() < prof.p_input:
@@ -305,8 +305,10 @@ def gen_def(rng, prof):
         k = len(inbound[t["name"]])
         if inbound_cnt[t["name"]] >= 2 and rng.random() < prof.p_join:
             if k >= 2 and rng.random() < prof.p_join_count:
-                t["join"] = rng.randint(1, k)
-                feats.add("join_count" if t["join"] < k else "join_count_all")
+                # a count above the number of inbound tasks is accepted by the inspection: the
+                # barrier can then never be satisfied
+                t["join"] = rng.randint(1, k + 1) if rng.random() < 0.25 else rng.randint(1, k)
+                feats.add("join_count" if t["join"] < k else ("join_count_all" if t["join"] == k else "join_count_over"))
             else:
                 t["join"] = "all"
                 feats.add("join_all")
@@ -315,11 +317,11 @@ def gen_def(rng, prof):
     # with-items
     for t in tasks:
         if rng.random() < prof.p_items:
-            w = {"items": rng.choice([ctx("xs"), lit([1, 2, 3]), lit([]), ctx("xs"), lit(["a", "b"])]),
+            w = {"items": rng.choice([ctx("xs"), lit([1, 2, 3]), lit([]), ctx("xs"), lit(["a", "b"]), lit([1, 2, 3, 4, 5])]),
                  "key": rng.choice([None, None, "i"]), "concurrency": None}
             r = rng.random()
             if r < 0.3:
-                w["concurrency"] = lit(rng.choice([1, 2, 2, 0]))
+                w["concurrency"] = lit(rng.choice([1, 2, 2, 0, 3]))
             elif r < 0.4:
                 w["concurrency"] = op("add", ctx("n"), lit(1))
             if w["key"]:
@@ -419,6 +421,7 @@ class HistProfile(object):
         self.p_early_resume = 0.0    # resume requested while the workflow is still pausing
         self.p_persist_first = 0.0   # persist/restore straight after construction
         self.p_task_pause = 0.0     # action reports pending/paused then resumes
+        self.p_item_pause = 0.0     # the same for the action of one item of a with-items task
         self.max_steps = 60
         self.fixed_outcomes = False
         self.p_any_req = 0.0        # arbitrary status requests (malformed stream), mostly after terminal
@@ -540,7 +543,8 @@ class History(object):
         self.inflight.pop(i)
         st = self.status()
         r = self.rng.random()
-        if self.hp.p_task_pause and key[2] is None and r < self.hp.p_task_pause:
+        if (self.hp.p_task_pause and key[2] is None and r < self.hp.p_task_pause) or \
+                (self.hp.p_item_pause and key[2] is not None and st not in ("canceling", "canceled") and r < self.hp.p_item_pause):
             s = self.rng.choice(["pending", "paused"])
             self.report(key, s, None)
             self.parked.append((key, s))
